@@ -3,6 +3,7 @@ package main
 import (
 	"encoding/json"
 	"fmt"
+	"sort"
 	"strconv"
 
 	"github.com/privacybydesign/gabi"
@@ -199,6 +200,34 @@ func genC08(g *Rng, tier string, emit func(Op)) {
 				}
 			}
 		}
+		// every index-keyed map of every member, one entry moved to each boundary index of the
+		// member's key: below 0, the last base, one past the last base, two past, far beyond
+		for pi, ptree := range s.trees {
+			pt, _ := ptree.(T)
+			nr := len(s.keys[pi].pk.R)
+			for _, mapName := range sortedStrKeys(pt) {
+				mv := pt[mapName]
+				pm, ok := mv.(map[string]any)
+				if !ok || !isMapNode(mv) || !intKeyed(pm) || len(pm) == 0 {
+					continue
+				}
+				src := sortedStrKeys(pm)[len(pm)-1]
+				for _, nk := range []string{"-1", strconv.Itoa(nr - 1), strconv.Itoa(nr), strconv.Itoa(nr + 1), "2147483648", "9223372036854775807"} {
+					if _, taken := pm[nk]; taken {
+						continue
+					}
+					t2 := cloneTree(root).(T)
+					mm := t2["l"].([]any)[pi].(T)[mapName].(map[string]any)
+					mm[nk] = mm[src]
+					delete(mm, src)
+					label := "reject|decode-error"
+					if h, ok := isLeafI(pm[src]); ok && h == "0" && mapName == "a_disclosed" {
+						label = never
+					}
+					emit(listOp(s.keys, t2["l"].([]any), s.ctx, s.nonce, false, nil, "rekey-boundary-"+mapName, label).with("fkey", "C08/rekey-boundary"))
+				}
+			}
+		}
 		for m := 0; m < nmut; m++ {
 			t2 := cloneTree(root)
 			if m%3 == 2 {
@@ -365,4 +394,13 @@ func normalizeTree(t any, parentKey string) any {
 		}
 		return v
 	}
+}
+
+func sortedStrKeys(m map[string]any) []string {
+	ks := make([]string, 0, len(m))
+	for k := range m {
+		ks = append(ks, k)
+	}
+	sort.Strings(ks)
+	return ks
 }
